@@ -36,6 +36,10 @@ def obs(line):
         if len(w) >= 3 and w[0] in ("a", "t"):
             w[2] = canon_reason(w[2])
             t = " ".join(w)
+        if len(w) >= 3 and w[0] == "k":
+            # package: the order of the "added" events is not part of the comparison
+            w = [("A=" + ",".join(sorted(x[2:].split(",")))) if x.startswith("A=") else x for x in w]
+            t = " ".join(w)
         out.append(t)
     return " | ".join(out)
 
@@ -529,11 +533,68 @@ def sc_random(rng):
     return "random", b.line()
 
 
-C22_CLASSES = [sc_maturity, sc_resurrect, sc_conflict, sc_locks, sc_chain, sc_random]
+def sc_package(rng):
+    """package submissions (child with its unconfirmed parents): a low-fee parent paid for by the child, two parents, a parent
+    already in the pool, a package replacing pool entries, packages that are refused (not child-with-parents, conflicting)"""
+    b = B(rng)
+    b.mine()
+    fanout(b, 6)
+    outs = pick_conf(b, 6)
+    kind = rng.choice(["cpfp", "two_parents", "parent_in_pool", "pkg_rbf", "not_cwp", "conflict_in_pkg", "missing"])
+    if kind == "cpfp":
+        p1 = b.tx([outs[0]], 1, fee=rng.choice([0, 10, 100, 5000]))
+        c = b.tx([(p1, 0)], 1, fee=rng.choice([100, 20000]))
+        b.op("pkg %s %s" % (p1, c))
+    elif kind == "two_parents":
+        p1 = b.tx([outs[0]], 1, fee=rng.choice([10, 3000]))
+        p2 = b.tx([outs[1]], 2, fee=rng.choice([10, 3000]))
+        c = b.tx([(p1, 0), (p2, 0)], 1, fee=30000)
+        b.op("pkg %s %s %s" % (p1, p2, c))
+        if rng.random() < 0.5:
+            t = b.tx([(p2, 1)], 1)
+            b.atmp(t)
+    elif kind == "parent_in_pool":
+        p1 = b.tx([outs[0]], 1, fee=4000)
+        b.atmp(p1)
+        p2 = b.tx([outs[1]], 1, fee=50)
+        c = b.tx([(p1, 0), (p2, 0)], 1, fee=30000)
+        b.op("pkg %s %s %s" % (p1, p2, c))
+    elif kind == "pkg_rbf":
+        v = b.tx([outs[0]], 1, fee=2000, seqs=[SEQ_RBF])
+        b.atmp(v)
+        v2 = b.tx([(v, 0)], 1, fee=1000)
+        b.atmp(v2)
+        p1 = b.tx([outs[0]], 1, fee=rng.choice([100, 2500]))
+        c = b.tx([(p1, 0)], 1, fee=rng.choice([500, 60000]))
+        b.op("pkg %s %s" % (p1, c))
+    elif kind == "not_cwp":
+        p1 = b.tx([outs[0]], 1)
+        p2 = b.tx([outs[1]], 1)
+        b.op("pkg %s %s" % (p1, p2))
+    elif kind == "conflict_in_pkg":
+        p1 = b.tx([outs[0]], 1)
+        c = b.tx([(p1, 0), outs[0]], 1)
+        b.op("pkg %s %s" % (p1, c))
+    else:
+        p1 = b.tx([("nosuch", 0)], 1)
+        c = b.tx([(p1, 0)], 1)
+        b.op("pkg %s %s" % (p1, c))
+    b.pool = {}
+    b.unconf = []
+    r = rng.random()
+    if r < 0.4:
+        b.mine()
+    elif r < 0.7:
+        b.inval_tip()
+    b.op("template 4000000 8000 1 400")
+    return "package", b.line()
+
+
+C22_CLASSES = [sc_maturity, sc_resurrect, sc_conflict, sc_locks, sc_chain, sc_random, sc_package]
 
 
 def gen_c22(rng, tier):
-    n = 15 if tier == "quick" else 260
+    n = 13 if tier == "quick" else 260
     cases = []
     for f in C22_CLASSES:
         for _ in range(n):
@@ -677,9 +738,50 @@ def with_tests(rng, line):
     return " ; ".join(out)
 
 
+def sc_testaccept(rng):
+    """one transaction of every verdict class, each tested and then submitted: valid, child of an unconfirmed parent, missing
+    input, bad witness, non-final, immature coinbase spend, replacement with too low / sufficient fee, already in the pool"""
+    b = B(rng)
+    b.mine()
+    fanout(b, 6)
+    outs = pick_conf(b, 6)
+    def both(name, expect=True):
+        b.test(name)
+        b.atmp(name, expect=expect)
+    kinds = ["valid", "child", "missing", "badwit", "nonfinal", "immature", "rbf_lo", "rbf_hi", "again", "zero_fee"]
+    rng.shuffle(kinds)
+    base = b.tx([outs[0]], 2, fee=5000)
+    b.atmp(base)
+    k = 1
+    for kind in kinds[:rng.choice([5, 7, 10])]:
+        if kind == "valid" and k < len(outs):
+            both(b.tx([outs[k]], 1)); k += 1
+        elif kind == "child":
+            both(b.tx([(base, 1)], 1, fee=3000))
+        elif kind == "missing":
+            both(b.tx([("nosuch", 0)], 1), expect=False)
+        elif kind == "badwit" and k < len(outs):
+            both(b.tx([outs[k]], 1, bad=True), expect=False); k += 1
+        elif kind == "nonfinal" and k < len(outs):
+            both(b.tx([outs[k]], 1, lock=str(b.height + 5), seqs=["0"]), expect=False); k += 1
+        elif kind == "immature":
+            both(b.tx([("f%d" % (b.height - 100 + 3), 0)], 1), expect=False)
+        elif kind == "rbf_lo":
+            both(b.tx([outs[0]], 1, fee=100), expect=False)
+        elif kind == "rbf_hi":
+            both(b.tx([outs[0]], 1, fee=90000))
+        elif kind == "again":
+            both(base, expect=False)
+        elif kind == "zero_fee" and k < len(outs):
+            both(b.tx([outs[k]], 1, fee=0), expect=False); k += 1
+    return "testaccept", b.line()
+
+
 def gen_c28(rng, tier):
-    n = 10 if tier == "quick" else 120
+    n = 9 if tier == "quick" else 120
     cases = []
+    for _ in range(2 * n):
+        cases.append(sc_testaccept(rng)[1])
     for f in (sc_conflict, sc_maturity, sc_locks, sc_chain, sc_resurrect, sc_random):
         for _ in range(n):
             cases.append(with_tests(rng, f(rng)[1]))
